@@ -13,7 +13,7 @@ def main():
     repo = os.path.join(scratch, 'repo')
     try:
         subprocess.run(['git', 'clone', '-q', '/repo', repo], check=True)
-        env = dict(os.environ); env['VERIF_REPO'] = repo
+        env = dict(os.environ); env['VERIF_REPO'] = repo; env['VERIF_OUT'] = os.path.join(scratch, 'out')
         for sid in ids:
             d = os.path.join(V, 'seeded', sid); meta = json.load(open(os.path.join(d, 'meta.json')))
             subprocess.run(['git', '-C', repo, 'checkout', '-q', '--', '.'], check=True)
@@ -32,6 +32,4 @@ def main():
             print(sid, 'caught by', meta['detected_by']['caught'], 'inconclusive', meta['detected_by']['inconclusive'], flush=True)
     finally:
         shutil.rmtree(scratch, ignore_errors=True)
-    # evidence files were rewritten by the runs on the mutated copies: restore the committed ones
-    subprocess.run(['git', '-C', V, 'checkout', '--', 'evidence'])
 if __name__ == '__main__': main()
